@@ -117,11 +117,11 @@ Definition plan_select (cmi : cmi_fn) (e : expr) (tr : trange) (blks : list bloc
 Definition all_events (blks : list blockrec) : list event := flat_map (fun nb : blockrec => snd nb) blks.
 
 (* ---------- soundness of a micro-index check (premise of the plan theorem) ---------- *)
-(* a dropped block holds no record the leaf matches; on a kept block the leaf evaluated on the passed columns, or on
-   any larger column list, is the leaf evaluated on all columns *)
+(* a dropped block holds no record the leaf matches, whatever columns are read; on a kept block the leaf evaluated on
+   the passed columns, or on any larger column list, is the leaf evaluated on all columns *)
 Definition cmi_sound_on (cmi : cmi_fn) (a : atom) (evs : list event) : Prop :=
   match cmi a evs with
-  | None => forall ev, In ev evs -> impl_atom a ev = false
+  | None => forall cs ev, In ev evs -> impl_atom_in cs a ev = false
   | Some cs => forall cs', (forall c, mem_col c cs = true -> mem_col c cs' = true) ->
                            forall ev, In ev evs -> impl_atom_in (Some cs') a ev = impl_atom a ev
   end.
@@ -202,15 +202,16 @@ Definition block_cols (evs : list event) : list N :=
   dedup_n (flat_map (fun ev => map fst (ev_fields ev)) evs) [].
 
 (* doRangeCheckAllCol / doRangeCheckForCols with the wildcard column: every column whose range entry passes is a
-   candidate; no candidate = block dropped.  A named column: the block is kept when its entry passes; without an
-   entry only != keeps it.  Text queries (bloom) are kept here on every block: dropping is an optimisation whose
+   candidate; no candidate = block dropped -- unless the query is negated: the block is then kept with the columns
+   that pass (possibly none), all its records being wanted.  A named column: the block is kept when its entry passes;
+   without an entry only != keeps it.  Text queries (bloom) are kept here on every block: dropping is an optimisation whose
    soundness is C03's subject, and a kept block is searched record by record *)
 Definition cmi_model : cmi_fn := fun a evs =>
   match a with
-  | AAny o (LNum n) =>
+  | AAny o (LNum n) neg =>
       let cs := filter (fun k => match col_entry k evs with Some r => entry_pass r o n | None => false end) (block_cols evs) in
-      match cs with [] => None | _ => Some cs end
-  | AAny _ (LStr _) => Some (block_cols evs)
+      match cs with [] => if neg then Some [] else None | _ => Some cs end
+  | AAny _ (LStr _) _ => Some (block_cols evs)
   | ACmp f o (LNum n) _ =>
       match col_entry f evs with
       | Some r => if entry_pass r o n then Some [f] else None
